@@ -110,7 +110,7 @@ def _args(src, task):
     return argparse.Namespace(src=src, task=task, src_format="export", src_enc="utf-8", src_opts=[])
 
 
-def run(m, n, two, task, swap=False, **kw):
+def run(m, n, two, task, swap=False, api=False, **kw):
     """analysis tasks through the command-line entry point on a corpus of 1-2 sentences"""
     stubs.install()
     ip, lp = e1_get(kw, m, n)
@@ -124,7 +124,15 @@ def run(m, n, two, task, swap=False, **kw):
             sents = [(1, s2), (2, s1)]      # the discontinuous sentence first
     stubs.put("c.export", enc_export(sents))
     tname = ["GapDegree", "PosTags", "SentenceCount"][task]
-    treeanalysis.run(_args("c.export", tname))
+    if api:
+        # the same task through the API: one task instance, run(tree) per tree, done()
+        from harness.formats import build_tree
+        inst = getattr(treeanalysis, tname)()
+        for sid, s in sents:
+            inst.run(build_tree(s, sid=sid))
+        inst.done()
+    else:
+        treeanalysis.run(_args("c.export", tname))
     text = stubs.SYS.stdout.text()
     ncons, pernode, pertree, tags = 0, {}, {}, set()
     for sid, s in sents:
@@ -211,6 +219,6 @@ def conds(tier):
                        timeout=600 if q else 3000, functions=FUNCS[5:7]))
     for (m, n) in ([(2, 2), (3, 3)] if q else [(2, 2), (3, 3), (3, 4)]):
         cs.append(Cond("run-m%d-n%d" % (m, n), "harness.c16:run",
-                       e1_params(m, n) + [P("two", "bool"), P("task", "int", 0, 3), P("swap", "bool")], fixed={"m": m, "n": n},
+                       e1_params(m, n) + [P("two", "bool"), P("task", "int", 0, 3), P("swap", "bool"), P("api", "bool")], fixed={"m": m, "n": n},
                        pre=[e1_wf_expr(m, n), "two or not swap"], shard=["task", "two"], timeout=600 if q else 3000, functions=FUNCS[3:5]))
     return cs
